@@ -107,8 +107,46 @@ def gen_input(rng, states, probes, maxlen=24):
     return out
 
 
+def printed(c):
+    """util.RuneToString for the runes we use here"""
+    return "'%s'" % chr(c) if 0x20 <= c < 0x7f and c not in (39, 92) else None
+
+
+def hostile_literals(lex):
+    out = []
+
+    def walk(p):
+        for alt in p:
+            for t in alt:
+                if t[0] == 'l' and printed(t[1]):
+                    out.append(printed(t[1]))
+                elif t[0] == 'r' and printed(t[1]) and printed(t[2]):
+                    out.append(printed(t[1]) + "-" + printed(t[2]))
+                elif t[0] == 'd':
+                    out.append(".")
+                elif t[0] in "opg":
+                    walk(t[1])
+    for kind, _, pat in lex:
+        walk(pat)
+    return sorted(set(out))
+
+
+# minimised past failures: they run first in every lexer-family check
+CORPUS = [
+    # D1 (known finding): regular definitions shared between use sites
+    {"lex": [(2, "_r", [[('l', 97), ('l', 97)]]), (0, "t1", [[('f', "_r"), ('l', 120)]]), (0, "t2", [[('l', 97), ('f', "_r"), ('l', 121)]])],
+     "syn": [], "mode": "multi", "inputs": [list(b"aay"), list(b"aaay"), list(b"aax")]},
+    # D13 (fixed): a string literal spelled like the printed form of a character literal
+    {"lex": [(0, "t1", [[('l', 97), ('l', 98)]])], "syn": [("S0", [(1, "t1"), (2, "'a'")], 0, 0)], "mode": "none",
+     "inputs": [list(b"'ab"), list(b"ab'a'"), list(b"'a'")]},
+    {"lex": [(0, "t1", [[('r', 97, 122), ('l', 98)]]), (0, "t2", [[('l', 120), ('d',)]])],
+     "syn": [("S0", [(1, "t1"), (2, "'a'-'z'")], 0, 0), ("S0", [(1, "t2"), (2, ".")], 0, 0)], "mode": "none",
+     "inputs": [list(b"'ab"), list(b".."), list(b"x."), list(b"'a'-'z'")]},
+]
+
+
 def make_grammars(rng, n, tier):
-    gs = []
+    gs = [dict(g) for g in CORPUS]
     for k in range(n):
         r = rng.random()
         if r < 0.25:
@@ -123,6 +161,9 @@ def make_grammars(rng, n, tier):
         if rng.random() < 0.25:
             # string literals of a syntax part compete with the named patterns
             lits = rng.sample(["ab", "a", "if", "b", "+", "aa", "0", "a1"], rng.randint(1, 3))
+            if rng.random() < 0.5:
+                # string literals spelled like the printed form of a term some pattern of this grammar expects
+                lits += rng.sample(hostile_literals(lex), min(2, len(hostile_literals(lex))))
             toks = gram.tokens_of_lex(lex)
             body = [(2, l) for l in lits] + ([rng.choice(toks)] if toks else [])
             syn = [("S0", [b], 0, 0) for b in body]
@@ -162,6 +203,9 @@ def run_family(ck, n_grammars, n_inputs, with_reset=True):
             meta.append(("terminals", i, None))
             if states is None:
                 continue
+            for src in g.get("inputs", []):
+                ilines.append("scan %d %d -1 %s" % (i, len(src) + 2, " ".join(map(str, src))))
+                meta.append(("scan", i, (src, len(src) + 2, -1)))
             for _ in range(n_inputs):
                 src = gen_input(rng, states, probes)
                 ncalls = rng.randint(1, 6) + len(src) // 2
